@@ -12,7 +12,7 @@ PROPERTY = 'C07'
 
 RULE = ('iff/xor-free typed grammar whose leaves are predicates (no bare numeric operand), per monitor kind (discrete offline: all '
         'operators; discrete online: past operators; dense lanes on the grid). (a) sign lane: for every t, rho(t) > 0 => the independent '
-        'Boolean evaluator says satisfied, rho(t) < 0 => violated, rho taken from the monitor. (b) lipschitz lane: every predicate is '
+        'Boolean evaluator says satisfied, rho(t) < 0 => violated, rho taken from the monitor. (b) lipschitz lanes (discrete and dense, offline and online): every predicate is '
         '"var cmp const"; a perturbation delta with |delta| <= 0.99*|rho(t)| per sample (dyadic, <= 1e3 if rho is infinite) is drawn and '
         'the Boolean verdict of the perturbed trace at t must equal that of the original. Non-trivial = 0 < |rho(t)| < inf at a checked '
         't and the formula has a negation/implication above a temporal operator or >= 2 temporal operators; distinct = distinct '
